@@ -260,8 +260,7 @@ def run(repo: Repo, L: Ledger, tier: str):
         try:
             a_s, a_e = as_lin(args[-2]), as_lin(args[-1])
         except (NotNumeric, IndexError):
-            L.fail("R3", f.short, "chunk bounds are not integer forms", f.loc(node))
-            continue
+            raise AnalysisError(f"{f.short}: the chunk bounds ({', '.join(repr(x)[:40] for x in args[-2:])}) are not linear integer forms: no verdict")
         ok, why = _bounded(a_e - a_s + 1, B)
         L.check(ok, "R3", f.short + ":size", "chunk_end − chunk_start + 1 ≤ buffer_size", f"requested span [{a_s}, {a_e}] is not bounded by buffer_size: {why}", f.loc(node), witness={"span": f"{a_e - a_s + 1}"})
         L.check(len(info["yields"]) == 1, "R3", f.short + ":yield", "one chunk per iteration", f"{len(info['yields'])} yields per iteration", f.loc())
